@@ -378,7 +378,11 @@ MapSeq(cx, R, es, i, ps, lefts) ==
   IF i > Len(es) \/ lefts = {} THEN lefts
   ELSE MapSeq(cx, R, es, i + 1, ps, UNION {MapEnt(cx, R, es[i], ps, left) : left \in lefts})
 MapEnt(cx, R, e, ps, left) ==
-  IF IsGroupEntry(R, e) THEN MapRep(cx, R, e, EntryGroup(R, e), ps, {left}, 0, IF e.lo = 0 THEN {left} ELSE {})
+  IF e.k = "name" /\ IsGroupRule(R, e.n) /\ Len(RuleGroup(R, e.n).galts) > 1
+     /\ "GroupAlternatesFirstWins" \in cx.dev
+  THEN \* loose deviation: a group name with //= alternates inside a map (first alternate without errors wins)
+       IF cx.dv THEN {left \ S : S \in SUBSET left} ELSE {}
+  ELSE IF IsGroupEntry(R, e) THEN MapRep(cx, R, e, EntryGroup(R, e), ps, {left}, 0, IF e.lo = 0 THEN {left} ELSE {})
   ELSE IF SpliceOf(R, e).ok THEN MapRep(cx, R, e, SpliceOf(R, e).g, ps, {left}, 0, IF e.lo = 0 THEN {left} ELSE {})
   ELSE IF e.k = "name" \/ e.key.kk = "none" THEN {}      \* a keyless entry cannot match a map pair (outside the fragment)
   ELSE
@@ -406,12 +410,24 @@ MapRep(cx, R, e, g, ps, frontier, n, acc) ==
 \* the first rule defines the data item (RFC 8610 section 2: "the first rule ... is the root")
 Root(R) == R[1]
 Accepts(cx, R, v) == Root(R).kind = "type" /\ MT(cx, R, InstType(R, Root(R).name, <<>>), v, {Root(R).name})
-LooseFlags == {"JsonTextLiteralVsObject"}
+LooseFlags == {"JsonTextLiteralVsObject", "GroupAlternatesFirstWins"}
 Readings(fmt, dev) == {[md |-> m, ifl |-> i, fmt |-> fmt, dev |-> dev, dv |-> d] :
                           m \in {"E", "G"}, i \in (IF fmt = "json" THEN BOOLEAN ELSE {FALSE}),
                           d \in (IF dev \cap LooseFlags # {} THEN BOOLEAN ELSE {FALSE})}
 \* "T" accepted under every reading, "F" rejected under every reading, "E" the property does not determine the verdict
-Expected(fmt, dev, R, v) ==
-  LET vs == {Accepts(cx, R, v) : cx \in Readings(fmt, dev)} IN
+\* Deviation UndefAsNull (C11 finding): the decoder hands 'undefined' to the validator as 'null'
+RECURSIVE NormV(_,_), NormSeq(_,_,_), NormPairs(_,_,_)
+NormSeq(dev, xs, i) == IF i > Len(xs) THEN <<>> ELSE <<NormV(dev, xs[i])>> \o NormSeq(dev, xs, i+1)
+NormPairs(dev, ps, i) == IF i > Len(ps) THEN <<>> ELSE <<[key |-> NormV(dev, ps[i].key), val |-> NormV(dev, ps[i].val)]>> \o NormPairs(dev, ps, i+1)
+NormV(dev, v) ==
+  IF "UndefAsNull" \notin dev THEN v
+  ELSE CASE v.k = "undefined" -> [k |-> "null"]
+         [] v.k = "arr" -> [k |-> "arr", items |-> NormSeq(dev, v.items, 1)]
+         [] v.k = "map" -> [k |-> "map", pairs |-> NormPairs(dev, v.pairs, 1)]
+         [] v.k = "tag" -> [v EXCEPT !.c = NormV(dev, v.c)]
+         [] OTHER -> v
+Expected(fmt, dev, R, v0) ==
+  LET v == NormV(dev, v0)
+      vs == {Accepts(cx, R, v) : cx \in Readings(fmt, dev)} IN
   IF vs = {TRUE} THEN "T" ELSE IF vs = {FALSE} THEN "F" ELSE "E"
 =============================================================================
